@@ -277,13 +277,15 @@ def check_drop_count(ctx):
     cand = [n for n, vs in defs_.items() if len(vs) == 1 and isinstance(vs[0], ast.Call) and unparse(vs[0].func) == "round" and "60" in unparse(vs[0])]
     if len(cand) != 1:
       raise AnalysisError(f"{q}: the per-minute drop count (round(60 * (nominal - rate))) was not found")
-    expr = match.inline_single_locals(f.node, defs_[cand[0]][0])
-    isdf = ix.func("ttconv.time_code:SmpteTimeCode.is_drop_frame")
+    # the value of the drop count where it is computed, with the locals it reads replaced by what they hold there;
+    # the rate (the method's field or the function's parameter) becomes the variable __rate
+    expr = match.inline_locals_deep(f.node, defs_[cand[0]][0])
+    rate_names = {"self._frame_rate": "__rate"}
+    rate_names.update({p_: "__rate" for p_ in f.params if "rate" in p_})
     for r in rates:
-      env = {"frame_rate": r, "self._frame_rate": r}
       try:
-        sub = match.replace_exprs([ast.Expr(expr)], {"self._frame_rate": "frame_rate"})[0].value
-        d = ce.ev(f.module, sub, f.cls, {"frame_rate": r, "ceil": None})
+        sub = match.replace_exprs([ast.Expr(expr)], rate_names)[0].value
+        d = ce.ev(f.module, sub, f.cls, {"__rate": r, "ceil": None})
       except NotConst as e:
         raise AnalysisError(f"{q}: the drop count `{short(expr, 60)}` leaves the evaluable subset ({e})")
       excess = 600 * (ceil(r) - r)
